@@ -5,10 +5,16 @@ CONSTANTS
   Vals <- TraceVals
   MaxDepth = 3
   NR = 1
+  NT = 1
+  Writers = {1}
+  RdThreads = {1}
   MapInit = 10
+  UsedInit = 0
   Chunk = 10
   PutCost = 0
   TxnBeforeGate = FALSE
+  NestedCloseClearsMark = FALSE
+  ReadNotCounted = FALSE
   BatchMax = 1
 POSTCONDITION Accepted
 CHECK_DEADLOCK FALSE
